@@ -275,6 +275,8 @@ class NumericWaveform(ABC, Generic[_TRaw, _TScaled]):
 
         if timing is None:
             timing = Timing.empty
+        else:
+            self._validate_timing(timing)
         self._timing = timing
 
         if scale_mode is None:
